@@ -29,6 +29,10 @@ def obligations(tier):
         obs.append(ch(f, "harness.C01_dfxp", timeout=T, functions=DF, bounds="all digit values of the clock-time shape named by the obligation"))
     if not q:
         obs.append(ch("clock_f8", "harness.C01_dfxp", timeout=T, functions=DF, bounds="4 hour digits, 8 fraction digits"))
+    obs.append(ch("dfxp_structure", "harness.C01_dfxp", timeout=max(T, 420), functions=("pycaption.dfxp.base.DFXPReader.read", "_translate_div", "_translate_p_tag", "_find_and_convert_times"), exhaustive=True,
+                  bounds="3 paragraphs; paragraphs 1-2 each one of 4 timing kinds (begin+end, begin+dur, begin only, no begin) x 4 content kinds, through the real DFXPReader on html.parser (256 structures): one caption per timed paragraph with content, in document order, nothing else"))
+    obs.append(ch("mdvd_structure", "harness.C01_mdvd", timeout=T, functions=("pycaption.microdvd.MicroDVDReader.read", "detect"), exhaustive=True,
+                  bounds="3 header kinds x 3 line kinds^3 x line ending: one caption per cue line in order; header {1}{1}fps and DEFAULT lines produce none"))
     SA = ("pycaption.sami.SAMIReader._translate_lang",)
     obs.append(ch("sami_2", "harness.C01_sami", timeout=T, functions=SA, exhaustive=True,
                   bounds="2 syncs, all instants < 100 h in ms, 5 paragraph shapes per sync"))
